@@ -306,6 +306,18 @@ func c08One(t *testing.T, run *c08Run) {
 		p2 := filepath.Join(local, "zjunk-prog@v1.0.0-go1.21.0-linux-amd64-2024-01-01.v1.count")
 		os.WriteFile(p2, junk, 0666)
 		w.extras[p2] = sha(junk)
+		// a week of its own (ended 2024-01-19) in which no program ever counted anything: two readable files
+		// without any counter.  That week gets no report, so its files may not be removed.
+		{
+			endT := time.Date(2024, 1, 19, 0, 0, 0, 0, time.UTC)
+			for _, arch := range []string{"amd64", "arm64"} {
+				meta := rt.V1Meta(endT.AddDate(0, 0, -7).Format(time.RFC3339), endT.Format(time.RFC3339), "prog", "v1.0.0", "go1.21.0", "linux", arch)
+				empty, _ := rt.WriteV1(meta, nil)
+				p := filepath.Join(local, "idleweek-prog@v1.0.0-go1.21.0-linux-"+arch+"-2024-01-12.v1.count")
+				os.WriteFile(p, empty, 0666)
+				w.extras[p] = sha(empty)
+			}
+		}
 		// in the week of the first early file: two files with a valid header but a damaged body
 		// (cannot be read: must stay untouched even though their week gets its report), and two
 		// readable files without any counter, sorting before and after all others (they change nothing)
